@@ -279,8 +279,8 @@ func TestC01_Block(t *testing.T) {
 		env := qigen.GenEnv(t, loc)
 		universe := qigen.GenUniverse(t, env)
 		indexAddr := rapid.Bool().Draw(t, "indexAddressUtxos")
-		nPlanned := 1 + qigen.Uniform(t, stats.Scale(6, 8), "blockLen")
-		fs := &qigen.BlockFeeState{Ordered: qigen.Chance(t, 85, "orderedFees")}
+		nBlocks := 1 + qigen.Uniform(t, stats.Scale(2, 3), "nBlocks")
+		orderedFees := qigen.Chance(t, 85, "orderedFees")
 
 		var history []string
 		history = append(history, "env: "+env.String())
@@ -320,305 +320,346 @@ func TestC01_Block(t *testing.T) {
 			}
 		}()
 
-		// ---- Process: NewBatch, SetPending(true), gas pool, ETX limits, per-block accumulators
-		runs := make([]*run, len(backends))
-		for i, b := range backends {
-			r := &run{b: b, batch: b.db.NewBatch(), gp: new(types.GasPool).AddGas(env.GasLimit), ucd: new(core.UtxosCreatedDeleted),
-				added: new(big.Int), removed: new(big.Int), firstQiTx: true}
-			r.batch.SetPending(true)
-			r.rLimit, r.pLimit = env.EtxLimits()
-			if indexAddr {
-				r.ucd.AddressOutpointsToAddMap = make(map[[20]byte][]*types.OutpointAndDenomination)
-				r.ucd.AddressOutpointsToRemoveMap = make(map[[20]byte][]*types.OutPoint)
-			}
-			runs[i] = r
-		}
-
-		model := universe.Clone()
-		model.BeginBlock()
-		height := new(big.Int).SetUint64(env.Height)
-
 		labels := map[string]bool{"regime:" + env.Regime.Name: true}
 		if indexAddr {
 			labels["index_address_utxos"] = true
 		}
-		if fs.Ordered {
+		if orderedFees {
 			labels["ordered_fees"] = true
 		}
 		var shapes []string
-		accepted, adversarial := 0, false
-		aborted := false
+		accepted, totalAccepted, adversarial := 0, 0, false
 
-		for txIdx := 0; txIdx < nPlanned && !stop; txIdx++ {
-			pct := 25
-			if txIdx == nPlanned-1 {
-				pct = 55
+		runBlock := func(blk int) {
+			// ---- Process: NewBatch, SetPending(true), gas pool, ETX limits, per-block accumulators
+			runs := make([]*run, len(backends))
+			for i, b := range backends {
+				r := &run{b: b, batch: b.db.NewBatch(), gp: new(types.GasPool).AddGas(env.GasLimit), ucd: new(core.UtxosCreatedDeleted),
+					added: new(big.Int), removed: new(big.Int), firstQiTx: true}
+				r.batch.SetPending(true)
+				r.rLimit, r.pLimit = env.EtxLimits()
+				if indexAddr {
+					r.ucd.AddressOutpointsToAddMap = make(map[[20]byte][]*types.OutpointAndDenomination)
+					r.ucd.AddressOutpointsToRemoveMap = make(map[[20]byte][]*types.OutPoint)
+				}
+				runs[i] = r
 			}
-			tc := qigen.GenTx(t, env, model, txIdx, fs, pct)
-			history = append(history, fmt.Sprintf("#%d %s", txIdx, tc.Desc))
-			ef := model.Evaluate(tc.Tx, qigen.TxContext{Loc: env.Loc, Height: height, CheckSig: tc.CheckSig, SigValid: tc.SigValid, WrapKeepsLocal: env.WrapKeepsLocal()})
-			for _, m := range tc.Mutations {
-				labels["mut:"+m] = true
-				adversarial = true
+
+			model := universe.Clone()
+			model.BeginBlock() // what earlier blocks of this case spent stays known as "spent in an earlier block"
+			height := new(big.Int).SetUint64(env.Height)
+			nPlanned := 1 + qigen.Uniform(t, stats.Scale(6, 8), "blockLen")
+			fs := &qigen.BlockFeeState{Ordered: orderedFees}
+			history = append(history, fmt.Sprintf("---- block %d at height %d, %d transactions planned", blk, env.Height, nPlanned))
+
+			aborted := false
+			acceptedHere := 0
+
+			for txIdx := 0; txIdx < nPlanned && !stop; txIdx++ {
+				pct := 25
+				if txIdx == nPlanned-1 {
+					pct = 55
+				} else if blk > 0 && txIdx == 0 {
+					pct = 45 // a later block: re-spends of what earlier blocks consumed are tried early
+				}
+				tc := qigen.GenTx(t, env, model, txIdx, fs, pct)
+				history = append(history, fmt.Sprintf("#%d %s", txIdx, tc.Desc))
+				ef := model.Evaluate(tc.Tx, qigen.TxContext{Loc: env.Loc, Height: height, CheckSig: tc.CheckSig, SigValid: tc.SigValid, WrapKeepsLocal: env.WrapKeepsLocal()})
+				for _, m := range tc.Mutations {
+					labels["mut:"+m] = true
+					adversarial = true
+				}
+				for _, f := range tc.Features {
+					labels["feat:"+f] = true
+				}
+				if !tc.CheckSig {
+					labels["checksig_false_tx"] = true
+				}
+				for _, r := range ef.Reasons {
+					labels["model_forbids:"+r] = true
+					adversarial = true
+				}
+				for _, in := range tc.Tx.TxIn() {
+					if model.CreatedInBlock(in.PreviousOutPoint) {
+						if _, live := model.Get(in.PreviousOutPoint); live {
+							labels["spend_same_block_output"] = true
+						}
+					}
+				}
+				if contains(ef.Reasons, qigen.RDupInTx) {
+					labels["same_tx_dup"] = true
+				}
+				if contains(ef.Reasons, qigen.RSpentInBlock) {
+					labels["cross_tx_respend"] = true
+				}
+				if contains(ef.Reasons, qigen.RSpentEarlier) {
+					labels["cross_block_respend"] = true
+				}
+
+				outs := make([]*outcome, len(runs))
+				for i, r := range runs {
+					outs[i] = r.exec(env, tc, txIdx, indexAddr)
+					o := outs[i]
+					verdict := "accepted"
+					if o.panicked != "" {
+						verdict = "PANIC " + o.panicked
+					} else if o.procErr != "" {
+						verdict = "rejected: " + o.procErr
+					} else if o.ruleErr != "" {
+						verdict = "rejected by Process: " + o.ruleErr
+					}
+					if i == 0 {
+						history = append(history, fmt.Sprintf("   model: forbids=%v in=%s out=%s", ef.Reasons, ef.InValue, ef.OutValue))
+					}
+					history = append(history, fmt.Sprintf("   %-8s %s fee=%v etxs=%d", r.b.name, verdict, o.fee, len(o.etxs)))
+				}
+
+				// ---- per-backend oracles
+				for i, r := range runs {
+					o := outs[i]
+					name := r.b.name
+					if o.panicked != "" {
+						fail("C01/panic/"+name, fmt.Sprintf("tx %d: ProcessQiTx panicked on %s: %s", txIdx, name, o.panicked))
+						continue
+					}
+					if !o.accepted() {
+						continue
+					}
+					// (1) safety against the model
+					if len(ef.Reasons) > 0 {
+						fail("C01/accept/"+ef.Reasons[0]+"/"+name, fmt.Sprintf("tx %d accepted on %s although the ledger model forbids it: %v\n%s", txIdx, name, ef.Reasons, tc.Desc))
+						continue
+					}
+					// value identity: consumed = created locally + carried away by ETXs + fee
+					if o.fee == nil || o.fee.Sign() < 0 {
+						fail("C01/value/negative-fee/"+name, fmt.Sprintf("tx %d on %s: fee %v", txIdx, name, o.fee))
+						continue
+					}
+					carried := new(big.Int)
+					for _, e := range o.etxs {
+						switch e.EtxType {
+						case types.DefaultType:
+							if e.Value == nil || !e.Value.IsUint64() || e.Value.Uint64() > qigen.MaxDenomination {
+								fail("C01/value/etx-denomination/"+name, fmt.Sprintf("tx %d on %s: cross-zone ETX with denomination %v", txIdx, name, e.Value))
+								continue
+							}
+							v, _ := qigen.DenomValue(uint8(e.Value.Uint64()))
+							carried.Add(carried, v)
+						case types.ConversionType:
+							carried.Add(carried, e.Value)
+						case types.WrappingQiType:
+							if !env.WrapKeepsLocal() {
+								carried.Add(carried, e.Value)
+							}
+						default:
+							fail("C01/value/etx-type/"+name, fmt.Sprintf("tx %d on %s: unexpected ETX type %d", txIdx, name, e.EtxType))
+						}
+					}
+					if o.removed.Cmp(ef.InValue) != 0 {
+						fail("C01/value/consumed/"+name, fmt.Sprintf("tx %d on %s: supplyRemovedQi grew by %s but the inputs are worth %s", txIdx, name, o.removed, ef.InValue))
+					}
+					sum := new(big.Int).Add(o.added, carried)
+					sum.Add(sum, o.fee)
+					if sum.Cmp(ef.InValue) != 0 {
+						fail("C01/value/identity/"+name, fmt.Sprintf("tx %d on %s: consumed %s != created locally %s + carried by ETXs %s + fee %s", txIdx, name, ef.InValue, o.added, carried, o.fee))
+					}
+					// (2) what the transaction did, against the model
+					var wantCreated, wantDeleted []common.Hash
+					createdValue := new(big.Int)
+					for _, c := range ef.Creates {
+						wantCreated = append(wantCreated, types.UTXOHash(c.OutPoint.TxHash, c.OutPoint.Index, c.Entry.ToUtxoEntry()))
+						v, _ := qigen.DenomValue(c.Entry.Denomination)
+						createdValue.Add(createdValue, v)
+					}
+					for _, s := range ef.Spends {
+						wantDeleted = append(wantDeleted, types.UTXOHash(s.OutPoint.TxHash, s.OutPoint.Index, s.Entry.ToUtxoEntry()))
+					}
+					if hashesKey(o.created) != hashesKey(wantCreated) {
+						fail("C01/delta/created/"+name, fmt.Sprintf("tx %d on %s: created-output hashes differ from the model: have %d want %d", txIdx, name, len(o.created), len(wantCreated)))
+					}
+					if hashesKey(o.deleted) != hashesKey(wantDeleted) {
+						fail("C01/delta/deleted/"+name, fmt.Sprintf("tx %d on %s: deleted-output hashes differ from the model: have %d want %d", txIdx, name, len(o.deleted), len(wantDeleted)))
+					}
+					if o.added.Cmp(createdValue) != 0 {
+						fail("C01/delta/supply-added/"+name, fmt.Sprintf("tx %d on %s: supplyAddedQi grew by %s, model creates %s", txIdx, name, o.added, createdValue))
+					}
+					// ETXs: one per cross-zone output with its denomination, one aggregate for conversion / wrap
+					var wantEtx []string
+					for _, idx := range ef.CrossZone {
+						out := tc.Tx.TxOut()[idx]
+						wantEtx = append(wantEtx, fmt.Sprintf("type=%d to=%x value=%d idx=%d", types.DefaultType, out.Address, out.Denomination, idx))
+					}
+					if ef.HasAgg {
+						ty := types.ConversionType
+						if ef.AggKind == qigen.OutWrap {
+							ty = types.WrappingQiType
+						}
+						wantEtx = append(wantEtx, fmt.Sprintf("type=%d to=%x value=%s idx=%d", ty, ef.AggTo, ef.AggValue, 0))
+					}
+					var haveEtx []string
+					for _, e := range o.etxs {
+						to := []byte{}
+						if e.To != nil {
+							to = e.To.Bytes()
+						}
+						haveEtx = append(haveEtx, fmt.Sprintf("type=%d to=%x value=%s idx=%d", e.EtxType, to, e.Value, e.ETXIndex))
+						if e.OriginatingTxHash != tc.Tx.Hash() {
+							fail("C01/delta/etx-origin/"+name, fmt.Sprintf("tx %d on %s: ETX with foreign originating hash", txIdx, name))
+						}
+					}
+					if strings.Join(haveEtx, ";") != strings.Join(wantEtx, ";") {
+						fail("C01/delta/etxs/"+name, fmt.Sprintf("tx %d on %s: emitted ETXs differ from the model:\n have %v\n want %v", txIdx, name, haveEtx, wantEtx))
+					}
+					if o.receipt == nil || o.receipt.TxHash != tc.Tx.Hash() || o.receipt.Status != types.ReceiptStatusSuccessful {
+						fail("C01/delta/receipt/"+name, fmt.Sprintf("tx %d on %s: receipt %+v", txIdx, name, o.receipt))
+					}
+				}
+				if stop {
+					break
+				}
+				// (3) backend differential
+				ref := outs[0]
+				for i := 1; i < len(outs); i++ {
+					o, name := outs[i], runs[i].b.name
+					if o.accepted() != ref.accepted() {
+						fail("C01/diff/verdict/"+name, fmt.Sprintf("tx %d: %s says %q/%q, %s says %q/%q", txIdx, runs[0].b.name, ref.procErr, ref.ruleErr, name, o.procErr, o.ruleErr))
+						continue
+					}
+					if (o.procErr == "") != (ref.procErr == "") || (o.ruleErr == "") != (ref.ruleErr == "") {
+						fail("C01/diff/stage/"+name, fmt.Sprintf("tx %d: rejected at different stages: %q/%q vs %q/%q", txIdx, ref.procErr, ref.ruleErr, o.procErr, o.ruleErr))
+						continue
+					}
+					if o.procErr != "" {
+						continue
+					}
+					if o.fee.Cmp(ref.fee) != 0 {
+						fail("C01/diff/fee/"+name, fmt.Sprintf("tx %d: fee %s vs %s", txIdx, o.fee, ref.fee))
+					}
+					if etxsKey(o.etxs) != etxsKey(ref.etxs) {
+						fail("C01/diff/etxs/"+name, fmt.Sprintf("tx %d: ETXs differ:\n %s\n %s", txIdx, etxsKey(o.etxs), etxsKey(ref.etxs)))
+					}
+					if o.receipt.GasUsed != ref.receipt.GasUsed || o.receipt.Status != ref.receipt.Status || o.receipt.TxHash != ref.receipt.TxHash || o.receipt.Type != ref.receipt.Type {
+						fail("C01/diff/receipt/"+name, fmt.Sprintf("tx %d: receipts differ: %+v vs %+v", txIdx, o.receipt, ref.receipt))
+					}
+					if hashesKey(o.created) != hashesKey(ref.created) || hashesKey(o.deleted) != hashesKey(ref.deleted) || o.added.Cmp(ref.added) != 0 || o.removed.Cmp(ref.removed) != 0 {
+						fail("C01/diff/delta/"+name, fmt.Sprintf("tx %d: created/deleted/supply deltas differ from %s", txIdx, runs[0].b.name))
+					}
+					if runs[i].usedGas != runs[0].usedGas || runs[i].gp.Gas() != runs[0].gp.Gas() || runs[i].rLimit != runs[0].rLimit || runs[i].pLimit != runs[0].pLimit {
+						fail("C01/diff/gas/"+name, fmt.Sprintf("tx %d: gas accounting differs from %s", txIdx, runs[0].b.name))
+					}
+				}
+				if stop {
+					break
+				}
+
+				verdict := "A"
+				if !ref.accepted() {
+					verdict = "R:" + rejectClass(ref.procErr+ref.ruleErr)
+					labels["reject:"+rejectClass(ref.procErr+ref.ruleErr)] = true
+					if len(ef.Reasons) > 0 {
+						labels["forbidden_rejected"] = true
+					} else if len(tc.Mutations) == 0 || (len(tc.Mutations) == 1 && tc.Mutations[0] == qigen.MSameBlock) {
+						if !fs.Ordered {
+							labels["clean_rejected_unordered_block"] = true
+						}
+						if os.Getenv("C01_DEBUG") == rejectClass(ref.procErr+ref.ruleErr) && fs.Ordered {
+							fmt.Println("==== clean rejected:", ref.procErr, ref.ruleErr, "price", ref.price, "prev", fs.PrevPrice, "\n"+strings.Join(history, "\n"))
+						}
+						labels["clean_rejected"] = true
+						labels["clean_rejected:"+rejectClass(ref.procErr+ref.ruleErr)] = true
+					} else {
+						labels["policy_rejected"] = true
+					}
+				}
+				shapes = append(shapes, tc.Shape()+"="+verdict)
+				if !ref.accepted() {
+					aborted = true // a block containing a rejected transaction is invalid: nothing is written
+					break
+				}
+				acceptedHere++
+				for _, f := range tc.Features {
+					labels["accepted_feat:"+f] = true
+				}
+				for _, m := range tc.Mutations {
+					labels["accepted_mut:"+m] = true
+				}
+				if len(ref.etxs) > 0 {
+					labels["accepted_with_etxs"] = true
+				}
+				if !tc.CheckSig {
+					labels["accepted_checksig_false"] = true
+				}
+				model.Apply(ef, txIdx)
+				fs.PrevPrice = ref.price
 			}
-			for _, f := range tc.Features {
-				labels["feat:"+f] = true
+			if stop {
+				return
 			}
-			if !tc.CheckSig {
-				labels["checksig_false_tx"] = true
-			}
-			for _, r := range ef.Reasons {
-				labels["model_forbids:"+r] = true
-				adversarial = true
-			}
-			for _, in := range tc.Tx.TxIn() {
-				if model.CreatedInBlock(in.PreviousOutPoint) {
-					if _, live := model.Get(in.PreviousOutPoint); live {
-						labels["spend_same_block_output"] = true
+
+			// ---- end of block: write, or drop the batch
+			want := model
+			if aborted {
+				want = universe
+				labels["block_aborted"] = true
+			} else {
+				labels["block_written"] = true
+				for _, r := range runs {
+					if err := r.batch.Write(); err != nil {
+						t.Fatalf("HARNESS: batch write on %s: %v", r.b.name, err)
 					}
 				}
 			}
-			if contains(ef.Reasons, qigen.RDupInTx) {
-				labels["same_tx_dup"] = true
-			}
-			if contains(ef.Reasons, qigen.RSpentInBlock) {
-				labels["cross_tx_respend"] = true
-			}
-
-			outs := make([]*outcome, len(runs))
+			wantItems := want.Items()
+			var refScan []qigen.Item
 			for i, r := range runs {
-				outs[i] = r.exec(env, tc, txIdx, indexAddr)
-				o := outs[i]
-				verdict := "accepted"
-				if o.panicked != "" {
-					verdict = "PANIC " + o.panicked
-				} else if o.procErr != "" {
-					verdict = "rejected: " + o.procErr
-				} else if o.ruleErr != "" {
-					verdict = "rejected by Process: " + o.ruleErr
+				got := scan(t, r.b)
+				if d := itemsDiff(got, wantItems); d != "" {
+					what := "written"
+					if aborted {
+						what = "aborted"
+					}
+					fail("C01/state/"+what+"/"+r.b.name, fmt.Sprintf("utxo set of %s after the %s block differs from the model: %s", r.b.name, what, d))
 				}
 				if i == 0 {
-					history = append(history, fmt.Sprintf("   model: forbids=%v in=%s out=%s", ef.Reasons, ef.InValue, ef.OutValue))
+					refScan = got
+				} else if d := itemsDiff(got, refScan); d != "" {
+					fail("C01/diff/state/"+r.b.name, fmt.Sprintf("utxo set of %s differs from %s: %s", r.b.name, runs[0].b.name, d))
 				}
-				history = append(history, fmt.Sprintf("   %-8s %s fee=%v etxs=%d", r.b.name, verdict, o.fee, len(o.etxs)))
-			}
-
-			// ---- per-backend oracles
-			for i, r := range runs {
-				o := outs[i]
-				name := r.b.name
-				if o.panicked != "" {
-					fail("C01/panic/"+name, fmt.Sprintf("tx %d: ProcessQiTx panicked on %s: %s", txIdx, name, o.panicked))
-					continue
-				}
-				if !o.accepted() {
-					continue
-				}
-				// (1) safety against the model
-				if len(ef.Reasons) > 0 {
-					fail("C01/accept/"+ef.Reasons[0]+"/"+name, fmt.Sprintf("tx %d accepted on %s although the ledger model forbids it: %v\n%s", txIdx, name, ef.Reasons, tc.Desc))
-					continue
-				}
-				// value identity: consumed = created locally + carried away by ETXs + fee
-				if o.fee == nil || o.fee.Sign() < 0 {
-					fail("C01/value/negative-fee/"+name, fmt.Sprintf("tx %d on %s: fee %v", txIdx, name, o.fee))
-					continue
-				}
-				carried := new(big.Int)
-				for _, e := range o.etxs {
-					switch e.EtxType {
-					case types.DefaultType:
-						if e.Value == nil || !e.Value.IsUint64() || e.Value.Uint64() > qigen.MaxDenomination {
-							fail("C01/value/etx-denomination/"+name, fmt.Sprintf("tx %d on %s: cross-zone ETX with denomination %v", txIdx, name, e.Value))
-							continue
-						}
-						v, _ := qigen.DenomValue(uint8(e.Value.Uint64()))
-						carried.Add(carried, v)
-					case types.ConversionType:
-						carried.Add(carried, e.Value)
-					case types.WrappingQiType:
-						if !env.WrapKeepsLocal() {
-							carried.Add(carried, e.Value)
-						}
-					default:
-						fail("C01/value/etx-type/"+name, fmt.Sprintf("tx %d on %s: unexpected ETX type %d", txIdx, name, e.EtxType))
+				if !aborted {
+					// block-level supply delta
+					delta := new(big.Int).Sub(r.added, r.removed)
+					md := new(big.Int)
+					for _, c := range model.Created {
+						v, _ := qigen.DenomValue(c.Entry.Denomination)
+						md.Add(md, v)
 					}
-				}
-				if o.removed.Cmp(ef.InValue) != 0 {
-					fail("C01/value/consumed/"+name, fmt.Sprintf("tx %d on %s: supplyRemovedQi grew by %s but the inputs are worth %s", txIdx, name, o.removed, ef.InValue))
-				}
-				sum := new(big.Int).Add(o.added, carried)
-				sum.Add(sum, o.fee)
-				if sum.Cmp(ef.InValue) != 0 {
-					fail("C01/value/identity/"+name, fmt.Sprintf("tx %d on %s: consumed %s != created locally %s + carried by ETXs %s + fee %s", txIdx, name, ef.InValue, o.added, carried, o.fee))
-				}
-				// (2) what the transaction did, against the model
-				var wantCreated, wantDeleted []common.Hash
-				createdValue := new(big.Int)
-				for _, c := range ef.Creates {
-					wantCreated = append(wantCreated, types.UTXOHash(c.OutPoint.TxHash, c.OutPoint.Index, c.Entry.ToUtxoEntry()))
-					v, _ := qigen.DenomValue(c.Entry.Denomination)
-					createdValue.Add(createdValue, v)
-				}
-				for _, s := range ef.Spends {
-					wantDeleted = append(wantDeleted, types.UTXOHash(s.OutPoint.TxHash, s.OutPoint.Index, s.Entry.ToUtxoEntry()))
-				}
-				if hashesKey(o.created) != hashesKey(wantCreated) {
-					fail("C01/delta/created/"+name, fmt.Sprintf("tx %d on %s: created-output hashes differ from the model: have %d want %d", txIdx, name, len(o.created), len(wantCreated)))
-				}
-				if hashesKey(o.deleted) != hashesKey(wantDeleted) {
-					fail("C01/delta/deleted/"+name, fmt.Sprintf("tx %d on %s: deleted-output hashes differ from the model: have %d want %d", txIdx, name, len(o.deleted), len(wantDeleted)))
-				}
-				if o.added.Cmp(createdValue) != 0 {
-					fail("C01/delta/supply-added/"+name, fmt.Sprintf("tx %d on %s: supplyAddedQi grew by %s, model creates %s", txIdx, name, o.added, createdValue))
-				}
-				// ETXs: one per cross-zone output with its denomination, one aggregate for conversion / wrap
-				var wantEtx []string
-				for _, idx := range ef.CrossZone {
-					out := tc.Tx.TxOut()[idx]
-					wantEtx = append(wantEtx, fmt.Sprintf("type=%d to=%x value=%d idx=%d", types.DefaultType, out.Address, out.Denomination, idx))
-				}
-				if ef.HasAgg {
-					ty := types.ConversionType
-					if ef.AggKind == qigen.OutWrap {
-						ty = types.WrappingQiType
+					for _, s := range model.Spent {
+						v, _ := qigen.DenomValue(s.Entry.Denomination)
+						md.Sub(md, v)
 					}
-					wantEtx = append(wantEtx, fmt.Sprintf("type=%d to=%x value=%s idx=%d", ty, ef.AggTo, ef.AggValue, 0))
-				}
-				var haveEtx []string
-				for _, e := range o.etxs {
-					to := []byte{}
-					if e.To != nil {
-						to = e.To.Bytes()
+					if delta.Cmp(md) != 0 {
+						fail("C01/state/supply-delta/"+r.b.name, fmt.Sprintf("supplyAddedQi-supplyRemovedQi = %s on %s, model %s", delta, r.b.name, md))
 					}
-					haveEtx = append(haveEtx, fmt.Sprintf("type=%d to=%x value=%s idx=%d", e.EtxType, to, e.Value, e.ETXIndex))
-					if e.OriginatingTxHash != tc.Tx.Hash() {
-						fail("C01/delta/etx-origin/"+name, fmt.Sprintf("tx %d on %s: ETX with foreign originating hash", txIdx, name))
-					}
-				}
-				if strings.Join(haveEtx, ";") != strings.Join(wantEtx, ";") {
-					fail("C01/delta/etxs/"+name, fmt.Sprintf("tx %d on %s: emitted ETXs differ from the model:\n have %v\n want %v", txIdx, name, haveEtx, wantEtx))
-				}
-				if o.receipt == nil || o.receipt.TxHash != tc.Tx.Hash() || o.receipt.Status != types.ReceiptStatusSuccessful {
-					fail("C01/delta/receipt/"+name, fmt.Sprintf("tx %d on %s: receipt %+v", txIdx, name, o.receipt))
 				}
 			}
 			if stop {
-				break
+				return
 			}
-			// (3) backend differential
-			ref := outs[0]
-			for i := 1; i < len(outs); i++ {
-				o, name := outs[i], runs[i].b.name
-				if o.accepted() != ref.accepted() {
-					fail("C01/diff/verdict/"+name, fmt.Sprintf("tx %d: %s says %q/%q, %s says %q/%q", txIdx, runs[0].b.name, ref.procErr, ref.ruleErr, name, o.procErr, o.ruleErr))
-					continue
-				}
-				if (o.procErr == "") != (ref.procErr == "") || (o.ruleErr == "") != (ref.ruleErr == "") {
-					fail("C01/diff/stage/"+name, fmt.Sprintf("tx %d: rejected at different stages: %q/%q vs %q/%q", txIdx, ref.procErr, ref.ruleErr, o.procErr, o.ruleErr))
-					continue
-				}
-				if o.procErr != "" {
-					continue
-				}
-				if o.fee.Cmp(ref.fee) != 0 {
-					fail("C01/diff/fee/"+name, fmt.Sprintf("tx %d: fee %s vs %s", txIdx, o.fee, ref.fee))
-				}
-				if etxsKey(o.etxs) != etxsKey(ref.etxs) {
-					fail("C01/diff/etxs/"+name, fmt.Sprintf("tx %d: ETXs differ:\n %s\n %s", txIdx, etxsKey(o.etxs), etxsKey(ref.etxs)))
-				}
-				if o.receipt.GasUsed != ref.receipt.GasUsed || o.receipt.Status != ref.receipt.Status || o.receipt.TxHash != ref.receipt.TxHash || o.receipt.Type != ref.receipt.Type {
-					fail("C01/diff/receipt/"+name, fmt.Sprintf("tx %d: receipts differ: %+v vs %+v", txIdx, o.receipt, ref.receipt))
-				}
-				if hashesKey(o.created) != hashesKey(ref.created) || hashesKey(o.deleted) != hashesKey(ref.deleted) || o.added.Cmp(ref.added) != 0 || o.removed.Cmp(ref.removed) != 0 {
-					fail("C01/diff/delta/"+name, fmt.Sprintf("tx %d: created/deleted/supply deltas differ from %s", txIdx, runs[0].b.name))
-				}
-				if runs[i].usedGas != runs[0].usedGas || runs[i].gp.Gas() != runs[0].gp.Gas() || runs[i].rLimit != runs[0].rLimit || runs[i].pLimit != runs[0].pLimit {
-					fail("C01/diff/gas/"+name, fmt.Sprintf("tx %d: gas accounting differs from %s", txIdx, runs[0].b.name))
-				}
+			if acceptedHere > accepted {
+				accepted = acceptedHere
 			}
-			if stop {
-				break
-			}
-
-			verdict := "A"
-			if !ref.accepted() {
-				verdict = "R:" + rejectClass(ref.procErr+ref.ruleErr)
-				labels["reject:"+rejectClass(ref.procErr+ref.ruleErr)] = true
-				if len(ef.Reasons) > 0 {
-					labels["forbidden_rejected"] = true
-				} else if len(tc.Mutations) == 0 || (len(tc.Mutations) == 1 && tc.Mutations[0] == qigen.MSameBlock) {
-					if !fs.Ordered {
-						labels["clean_rejected_unordered_block"] = true
-					}
-					if os.Getenv("C01_DEBUG") == rejectClass(ref.procErr+ref.ruleErr) && fs.Ordered {
-						fmt.Println("==== clean rejected:", ref.procErr, ref.ruleErr, "price", ref.price, "prev", fs.PrevPrice, "\n"+strings.Join(history, "\n"))
-					}
-					labels["clean_rejected"] = true
-					labels["clean_rejected:"+rejectClass(ref.procErr+ref.ruleErr)] = true
-				} else {
-					labels["policy_rejected"] = true
-				}
-			}
-			shapes = append(shapes, tc.Shape()+"="+verdict)
-			if !ref.accepted() {
-				aborted = true // a block containing a rejected transaction is invalid: nothing is written
-				break
-			}
-			accepted++
-			model.Apply(ef, txIdx)
-			fs.PrevPrice = ref.price
-		}
-		if stop {
-			stats.Case(part, "known-finding", false, "stopped_on_known_finding")
-			return
-		}
-
-		// ---- end of block: write, or drop the batch
-		want := model
-		if aborted {
-			want = universe
-			labels["block_aborted"] = true
-		} else {
-			labels["block_written"] = true
-			for _, r := range runs {
-				if err := r.batch.Write(); err != nil {
-					t.Fatalf("HARNESS: batch write on %s: %v", r.b.name, err)
-				}
-			}
-		}
-		wantItems := want.Items()
-		var refScan []qigen.Item
-		for i, r := range runs {
-			got := scan(t, r.b)
-			if d := itemsDiff(got, wantItems); d != "" {
-				what := "written"
-				if aborted {
-					what = "aborted"
-				}
-				fail("C01/state/"+what+"/"+r.b.name, fmt.Sprintf("utxo set of %s after the %s block differs from the model: %s", r.b.name, what, d))
-			}
-			if i == 0 {
-				refScan = got
-			} else if d := itemsDiff(got, refScan); d != "" {
-				fail("C01/diff/state/"+r.b.name, fmt.Sprintf("utxo set of %s differs from %s: %s", r.b.name, runs[0].b.name, d))
-			}
+			totalAccepted += acceptedHere
+			shapes = append(shapes, "|")
 			if !aborted {
-				// block-level supply delta
-				delta := new(big.Int).Sub(r.added, r.removed)
-				md := new(big.Int)
-				for _, c := range model.Created {
-					v, _ := qigen.DenomValue(c.Entry.Denomination)
-					md.Add(md, v)
-				}
-				for _, s := range model.Spent {
-					v, _ := qigen.DenomValue(s.Entry.Denomination)
-					md.Sub(md, v)
-				}
-				if delta.Cmp(md) != 0 {
-					fail("C01/state/supply-delta/"+r.b.name, fmt.Sprintf("supplyAddedQi-supplyRemovedQi = %s on %s, model %s", delta, r.b.name, md))
-				}
+				universe = model // the next block starts from what this one left in the databases
 			}
+		}
+		for blk := 0; blk < nBlocks && !stop; blk++ {
+			if blk > 0 {
+				env.AdvanceBlock()
+				labels["multi_block"] = true
+			}
+			runBlock(blk)
 		}
 		if stop {
 			stats.Case(part, "known-finding", false, "stopped_on_known_finding")
@@ -629,7 +670,7 @@ func TestC01_Block(t *testing.T) {
 		if accepted >= 2 {
 			labels["accepted_2plus"] = true
 		}
-		nontrivial := accepted >= 1 && adversarial
+		nontrivial := totalAccepted >= 1 && adversarial
 		var ll []string
 		for l := range labels {
 			ll = append(ll, l)
